@@ -57,6 +57,7 @@ def run(ctx, build):
                 sort_dims = rng.random() < 0.15
                 with common.quiet():
                     u = usid.USIDataset(main, sort_dims=sort_dims)
+                    gen.Bystander.get(ctx.tmp).touch()
                 hist['reductions'] += 1
                 hist['functions'][name] = hist['functions'].get(name, 0) + 1
                 rp = [l for l in lay.pos_labels if l in dims]
